@@ -150,6 +150,21 @@ theorem old_schemes_rule_merges :
   · simp [schemesOld, splitCommaSpace, trim, goIsSpace]
   · decide
 
+/-- canonical writing round-trips: non-empty, blank-free, comma-free schemes written `a,b,c` are scanned back as written -/
+theorem schemes_canonical_rt (sp : Char → Bool) (hcomma : sp ',' = false) (ts : List Str)
+    (h : ∀ t ∈ ts, t ≠ [] ∧ ∀ c ∈ t, sp c = false ∧ c ≠ ',') :
+    schemesOf sp (renderSchemes (ts.map (fun t => ([], t, [])))) = ts := by
+  rw [schemes_faithful sp hcomma]
+  · simp only [List.map_map]
+    have : ((fun i : Str × Str × Str => i.2.1) ∘ fun t : Str => (([] : Str), t, ([] : Str))) = id := by funext t; rfl
+    rw [this, List.map_id, List.filter_eq_self]
+    intro t ht
+    have := (h t ht).1
+    cases t <;> simp_all
+  · intro i hi c hc; simp only [List.mem_map] at hi; obtain ⟨t, _, rfl⟩ := hi; cases hc
+  · intro i hi c hc; simp only [List.mem_map] at hi; obtain ⟨t, _, rfl⟩ := hi; cases hc
+  · intro i hi c hc; simp only [List.mem_map] at hi; obtain ⟨t, ht, rfl⟩ := hi; exact (h t ht).2 c hc
+
 /-- how a tag list is written: blanks, then tokens each followed by blanks; only the last token may have none after it -/
 def WellSpaced (sp : Char → Bool) : List (Str × Str) → Prop
   | [] => True
